@@ -375,6 +375,29 @@ class ScriptGen:
                 if b3 is not None:
                     self.record('implies_elim', None, [th, b3], True)
 
+    def do_shared_depths(self):
+        """One term OBJECT at two binder depths, produced by the rules themselves (assume t; forall_intr y; implies_intr t puts the
+        object t once at the top and once under the binder y), then generalised / abstracted over a variable of t: the occurrence
+        under the inner binder must get the index of the OUTER binder."""
+        Ta = TVar('a')
+        x, y, z = Var('x', Ta), Var('y', Ta), Var('z', Ta)
+        P, Q = Var('P', TFun(Ta, BoolType)), Var('Q', TFun(Ta, Ta, BoolType))
+        for body in (P(x), Q(x, z), Q(z, x), Eq(x, z), Implies(P(x), Q(x, x))):
+            t0 = self.record('assume', body, [], False)
+            t1 = self.record('forall_intr', y, [t0], False) if t0 is not None else None
+            t2 = self.record('implies_intr', body, [t1], False) if t1 is not None else None
+            if t2 is None:
+                continue
+            self.record('forall_intr', x, [t2], False)
+            r0 = self.record('reflexive', t2.prop, [], False)
+            if r0 is not None:
+                self.record('abstraction', x, [r0], False)
+            # two binders between the occurrences
+            t3 = self.record('forall_intr', z, [t1], False)
+            t4 = self.record('implies_intr', body, [t3], False) if t3 is not None else None
+            if t4 is not None:
+                self.record('forall_intr', x, [t4], False)
+
     def do_subst_capture(self):
         """Replacement that is open only in an argument position (get_type does not look there)
         for a variable that occurs under binders in hypothesis and conclusion."""
@@ -643,6 +666,13 @@ def run_check(tier, seed):
     all_cases = []
     for s in range(n_scripts):
         sg = ScriptGen(random.Random(run.rng.getrandbits(64)), run)
+        if s == 0:
+            try:
+                sg.do_shared_depths()      # directed, every run
+            except RecursionError:
+                raise
+            except Exception as e:
+                run.stat('gen_error:' + type(e).__name__)
         for _ in range(n_steps):
             try:
                 sg.step()
